@@ -73,8 +73,13 @@ def handle(job):
       # provenance: statistics equal the twin's after the same absorbed gradients
       L = len(exp["stats"])
       d = _rel(kept[t]["stats"][k], tw_stats[L - 1][k])
-      worst["stats_twin"] = max(worst["stats_twin"], d)
-      if d > 1e-5:
+      # int16-quantized statistics (pmapq) are re-quantized at every statistics step: half a bucket, 1.5e-5 of the
+      # column maximum, each time - the run and its twin do not round alike.  A gradient absorbed at the wrong
+      # step moves the statistics by O(1/T), far above either tolerance.
+      stol = 1e-3 if r.mode == "pmapq" else 1e-5
+      worst["stats_twin_int16" if r.mode == "pmapq" else "stats_twin"] = max(
+          worst.get("stats_twin_int16" if r.mode == "pmapq" else "stats_twin", 0.0), d)
+      if d > stol:
         mism.append({"clause": "statistics_do_not_reflect_absorbed_gradients", "step": t, "stat": k, "detail": d})
       if not deviated:
         sp = exp["stored"]
